@@ -2,7 +2,7 @@
    lemma of Proofs.v; the axioms each depends on are printed beneath it.
    All are statements about gen/Scales.v, regenerated from scales.py on every run. *)
 From Coq Require Import Reals.
-From Verif Require Import gen.Scales C19.Proofs.
+From Verif Require Import gen.Scales C19.Proofs C19.ProofsRange.
 Open Scope R_scope.
 
 (* linear: mutual inverses for any non-zero slope, strictly increasing for slope > 0 *)
@@ -97,3 +97,46 @@ Print Assumptions bark_formula.
 Theorem bark_1000 : Rabs (bark_h2s 1000 - 8.5) <= 1 / 10.
 Proof. exact bark_1000_l. Qed.
 Print Assumptions bark_1000.
+
+(* images: each map sends its domain INTO and ONTO the other's, so the inverse laws above make
+   hertz_to_scale / scale_to_hertz mutually inverse BIJECTIONS between the two whole domains
+   (mel: (-700,oo) <-> R; octave: (0,oo) <-> R; Bark: (-1960,oo) <-> (-oo, 69099/2500)) *)
+Theorem mel_s2h_range : forall s, -700 < mel_s2h s.
+Proof. exact mel_s2h_range_l. Qed.
+Print Assumptions mel_s2h_range.
+Theorem mel_h2s_onto : forall s, exists f, -700 < f /\ mel_h2s f = s.
+Proof. exact mel_h2s_onto_l. Qed.
+Print Assumptions mel_h2s_onto.
+Theorem mel_s2h_onto : forall f, -700 < f -> exists s, mel_s2h s = f.
+Proof. exact mel_s2h_onto_l. Qed.
+Print Assumptions mel_s2h_onto.
+Theorem mel_h2s_injective : forall a b, -700 < a -> -700 < b -> mel_h2s a = mel_h2s b -> a = b.
+Proof. exact mel_h2s_injective_l. Qed.
+Print Assumptions mel_h2s_injective.
+Theorem mel_h2s_nonneg : forall f, 0 <= f -> 0 <= mel_h2s f.
+Proof. exact mel_h2s_nonneg_l. Qed.
+Print Assumptions mel_h2s_nonneg.
+Theorem octave_s2h_range : forall l s, 0 < octave_s2h l s.
+Proof. exact octave_s2h_range_l. Qed.
+Print Assumptions octave_s2h_range.
+Theorem octave_h2s_onto : forall l s, exists f, 0 < f /\ octave_h2s l f = s.
+Proof. exact octave_h2s_onto_l. Qed.
+Print Assumptions octave_h2s_onto.
+Theorem octave_h2s_injective : forall l a b, 0 < a -> 0 < b -> octave_h2s l a = octave_h2s l b -> a = b.
+Proof. exact octave_h2s_injective_l. Qed.
+Print Assumptions octave_h2s_injective.
+Theorem bark_h2s_range : forall f, -1960 < f -> bark_h2s f < 69099 / 2500.
+Proof. exact bark_h2s_range_l. Qed.
+Print Assumptions bark_h2s_range.
+Theorem bark_s2h_range : forall s, s < 69099 / 2500 -> -1960 < bark_s2h s.
+Proof. exact bark_s2h_range_l. Qed.
+Print Assumptions bark_s2h_range.
+Theorem bark_h2s_onto : forall s, s < 69099 / 2500 -> exists f, -1960 < f /\ bark_h2s f = s.
+Proof. exact bark_h2s_onto_l. Qed.
+Print Assumptions bark_h2s_onto.
+Theorem bark_s2h_onto : forall f, -1960 < f -> exists s, s < 69099 / 2500 /\ bark_s2h s = f.
+Proof. exact bark_s2h_onto_l. Qed.
+Print Assumptions bark_s2h_onto.
+Theorem bark_h2s_injective : forall a b, -1960 < a -> -1960 < b -> bark_h2s a = bark_h2s b -> a = b.
+Proof. exact bark_h2s_injective_l. Qed.
+Print Assumptions bark_h2s_injective.
